@@ -133,6 +133,9 @@ def node_paths(h, max_len=12):
 
 # ------------------------------------------------------------------ running the real walker
 
+NOBODY = ["setpriv", "--reuid=65534", "--regid=65534", "--clear-groups"]
+
+
 def run_walks(scenarios, tag, as_nobody=False):
     """returns {sid: result}"""
     C.build_harness()
@@ -140,6 +143,16 @@ def run_walks(scenarios, tag, as_nobody=False):
     shutil.rmtree(root, ignore_errors=True)
     os.makedirs(root)
     os.chmod(root, 0o755)
+    if as_nobody and subprocess.run(NOBODY + ["test", "-x", root], capture_output=True).returncode != 0:
+        # the checkout lives beneath a directory that the unprivileged user cannot traverse (/root/...): the trees
+        # of this run are built in a scratch directory under the system's temporary directory and removed afterwards
+        shutil.rmtree(root, ignore_errors=True)
+        import tempfile
+        root = tempfile.mkdtemp(prefix="wv-walk-%s-" % tag)
+        os.chmod(root, 0o755)
+        if subprocess.run(NOBODY + ["test", "-x", root], capture_output=True).returncode != 0:
+            shutil.rmtree(root, ignore_errors=True)
+            raise C.ToolError("no scratch directory that the unprivileged user can reach")
     spath = os.path.join(root, "scenarios.ndjson")
     L.write_ndjson(spath, scenarios)
     os.chmod(spath, 0o644)
@@ -150,7 +163,7 @@ def run_walks(scenarios, tag, as_nobody=False):
             raise C.ToolError("building scenario trees failed")
         cmd = [C.WV, "walk", "--root", root, "--run"]
         if as_nobody:
-            cmd = ["setpriv", "--reuid=65534", "--regid=65534", "--clear-groups"] + cmd
+            cmd = NOBODY + cmd
         p = subprocess.run(cmd, stdin=open(spath), capture_output=True, text=True, timeout=3000)
         if p.returncode != 0:
             C.log(p.stderr[-3000:])
